@@ -27,6 +27,7 @@ def decl_specs(tier):
         specs.append({'names': [c], 'wrapper': 'd'})
     specs.extend(alphabet.families())
     specs.extend(alphabet.boundary_specs())
+    specs.extend(alphabet.structure_specs())
     return specs
 
 
